@@ -27,7 +27,7 @@ def install(ctx):
 
     def parse_ilog_data(data, header_file_path):
         res = orig(data, header_file_path)
-        table = TABLES.get(os.path.abspath(header_file_path))
+        table = TABLES.get(iogen.pkey(header_file_path))
         if table is None:
             ctx.counters["ilog.unknown_table"] += 1
             return res
@@ -49,7 +49,7 @@ def install(ctx):
 
     def get_entry(self, pte):
         e = orig_get(self, pte)
-        table = TABLES.get(os.path.abspath(self.header_file_path))
+        table = TABLES.get(iogen.pkey(self.header_file_path))
         if table is not None:
             ctx.counters["get_entry.checked"] += 1
             if len(self.entries) != len(table):
@@ -90,9 +90,10 @@ def classify(got, want):
 
 def plan(tier, seed):
     n = 150 if tier == "quick" else 6000
-    specs = [{"mode": "synthetic", "n": n, "rseed": seed * 1000 + i} for i in range(14)]
+    specs = [{"mode": "synthetic", "n": n, "rseed": seed * 1000 + i, "optimize": i % 4 == 3} for i in range(14)]
     specs += [{"mode": "shipped", "which": w, "n": 60 if tier == "quick" else 3000, "rseed": seed * 1000 + 100 + k}
               for k, w in enumerate(["mex", "nimitz"])]
+    specs[-1]["optimize"] = True          # python -O: assert statements are compiled away
     specs.append({"mode": "layout", "n": 25 if tier == "quick" else 300, "rseed": seed * 1000 + 200})
     return specs
 
@@ -122,7 +123,7 @@ def run(spec, ctx):
                 ctx.case(repr(table) + data.hex(), any(data[k:k + 8] != b"\0" * 8 for k in range(0, len(data) - 7, 8)),
                          sample={"table": [list(t) for t in table][:3], "data_hex": data[:32].hex()} if i == 0 else None)
                 try:
-                    ilog.parse_ilog_data(iogen.view_of(rng, data), path)
+                    ilog.parse_ilog_data(iogen.view_of(rng, data), iogen.path_of(rng, path))
                 except Exception as e:
                     ctx.violation("C14/decoder-raised/" + type(e).__name__, "parse_ilog_data raised %r" % (e,), data=data[:400],
                                   table=[list(t) for t in table][:50])
